@@ -317,6 +317,35 @@ func (c *Ctx) ruleM5() {
 	c.floor("M5", "address constructions", n, 1)
 }
 
+// setterStore: the call hands a value of d to a method of the same package that stores that
+// parameter into a field of its receiver; returns the field.
+func setterStore(call ssa.CallInstruction, d map[ssa.Value]bool) *types.Var {
+	if _, isGo := call.(*ssa.Go); isGo {
+		return nil
+	}
+	h := call.Common().StaticCallee()
+	if h == nil || h.Blocks == nil || h.Signature.Recv() == nil {
+		return nil
+	}
+	var out *types.Var
+	for i, a := range call.Common().Args {
+		if !d[a] || i >= len(h.Params) || i == 0 {
+			continue
+		}
+		p := h.Params[i]
+		eachInstr(h, func(in ssa.Instruction) {
+			st, ok := in.(*ssa.Store)
+			if !ok || st.Val != ssa.Value(p) {
+				return
+			}
+			if fa, ok := st.Addr.(*ssa.FieldAddr); ok && isRecv(h, fa.X) {
+				out = fieldVarOf(fa)
+			}
+		})
+	}
+	return out
+}
+
 func (c *Ctx) ruleX4() {
 	n := 0
 	for _, f := range c.fnsInPkg("pubsub/pubsubcoreapi") {
@@ -336,6 +365,10 @@ func (c *Ctx) ruleX4() {
 		cons := fnKey(f) + "#snapshot-replaced"
 		d := derived(peers, flowOpts{})
 		assign := func(in ssa.Instruction) bool {
+			if call, ok := in.(ssa.CallInstruction); ok {
+				// through a setter method of the same receiver
+				return setterStore(call, d) != nil
+			}
 			st, ok := in.(*ssa.Store)
 			if !ok || !d[st.Val] {
 				return false
